@@ -18,7 +18,44 @@ def realtime(ctx, run):
     return res
 
 
+def recycled_managers(rng, cid0):
+    """'the keys' values are gone': keys that collide in one fast slot of the key table (slow-path managers, pooled in a
+    free ring when removed) each get a value, are drained and removed by the sweepers; then a run of fresh colliding
+    keys is served by the pooled manager objects: their first replies must not show any value."""
+    from checks import C15_data
+    cases = []
+    for j in range(3):
+        base = rng.choice([3, 7, 11])
+        lines = ["case %d 1000000 %d %d" % (cid0 + j, rng.choice([0, 1]), rng.choice([0, 1]))]
+        rid = 600000 + 1000 * j
+        n1 = rng.choice([3, 5, 9])
+        for i in range(n1):                      # base key first, then colliding keys (slow path) with values
+            key = base + 64 * i
+            data = "x" + C15_data.f_set(b"v%d" % i).hex()
+            lines.append("req 1 L %d 32 %d %d 0 0 0 %d 0 0 %s" % (rid, 800 + i, key, rng.choice([2, 3, 5]), data)); rid += 1
+        order = list(range(n1)); rng.shuffle(order)
+        for i in order[:rng.randrange(0, n1)]:  # some released explicitly, the others expire
+            lines.append("req 1 U %d 0 %d %d 0 0 0 0 0 0 -" % (rid, 800 + i, base + 64 * i)); rid += 1
+        for _ in range(8):
+            lines += ["adv 1", "sweept", "sweepe"]
+        lines += ["adv 20", "sweept", "sweepe", "adv 1", "sweept", "sweepe"]
+        for i in range(n1, n1 + 14):             # fresh colliding keys: the pooled managers come back
+            key = base + 64 * i
+            lines.append("req 2 L %d 0 %d %d 0 0 0 2 0 0 -" % (rid, 900 + i, key)); rid += 1
+            if i % 3 == 0:
+                lines.append("req 2 U %d 0 %d %d 0 0 0 0 0 0 -" % (rid, 900 + i, key)); rid += 1
+        lines.append("adv 0")
+        lines.append("role 1")
+        for _ in range(6):
+            lines += ["adv 1", "sweept", "sweepe"]
+        lines += ["adv 30", "sweept", "sweepe", "adv 1", "sweept", "sweepe"]
+        lines.append("end")
+        cases.append(lines)
+    return cases
+
+
 def run(ctx):
     if getattr(ctx, "replay", None):
         return _engine.replay(ctx, 'C17', MONITORS)
-    return _engine.run_engine_check(ctx, 'C17', PROFILES, MONITORS, n_quick=500, n_thorough=20000, impl_only=realtime)
+    return _engine.run_engine_check(ctx, 'C17', PROFILES, MONITORS, n_quick=500, n_thorough=20000, impl_only=realtime,
+                                    extra_cases=recycled_managers)
